@@ -403,6 +403,91 @@ def selftest():
     assert fits_int('uintle', 12, 1) == REJECT and fits_int('int', 1, -1) == '1' and fits_int('int', 1, 1) == REJECT
 
 
+BOOL_VALUES = [0, 1, True, False, 2, -1, 255, 3, -2, 256, 10 ** 20]
+BOOL_ROUTES = ['kw', 'token', 'pack', 'pack_kw', 'dtype_build', 'setattr', 'array_init', 'array_init_tuple', 'array_init_iter', 'array_extend', 'array_extend_iter', 'array_append', 'array_insert',
+               'array_setitem', 'array_slice', 'array_slice_step']
+
+
+def enum_bool(tier):
+    for v in range(len(BOOL_VALUES)):
+        for r in BOOL_ROUTES:
+            for pos in (0, 1, 2):
+                yield {'v': v, 'route': r, 'pos': pos}
+
+
+def run_bool(case):
+    """bool is the one-bit integer: 0 / 1 / False / True fit, every other integer is rejected through every route, and a rejected value changes nothing"""
+    bs = bitstring_module()
+    v, route, pos = BOOL_VALUES[case['v']], case['route'], case['pos']
+    fits = v in (0, 1)
+    others = [1, 0, 1]
+    seq = others[:pos] + [v] + others[pos:]            # the value under test among good ones, at the front, in the middle or at the end
+    expbits = ''.join('1' if x else '0' for x in seq)
+    if not route.startswith('array_'):
+        if route == 'kw':
+            r = attempt(lambda: bs.Bits(bool=v))
+        elif route == 'token':
+            r = attempt(lambda: bs.Bits(f'bool={v}'))
+        elif route == 'pack':
+            r = attempt(lambda: bs.pack('bool', v))
+        elif route == 'pack_kw':
+            r = attempt(lambda: bs.pack('bool=x', x=v))
+        elif route == 'dtype_build':
+            r = attempt(lambda: bs.Dtype('bool').build(v))
+        else:
+            a = bs.BitArray('0b101')
+            r = attempt(setattr, a, 'bool', v)
+            if not fits:
+                require(a.bin == '101', 'a rejected assignment changed the target', got=a.bin)
+            r = a if not is_raised(r) else r
+        if fits:
+            require(not is_raised(r) and r.bin == ('1' if v else '0'), 'bool value 0/1 must give the single bit', got=r, v=v, route=route)
+        else:
+            require(is_raised(r, ValueError), 'an integer other than 0/1 does not fit a bool and must be rejected', got=r if is_raised(r) else r.bin, v=v, route=route)
+        return {'nt': not fits, 'labels': [route]}
+    arr = bs.Array('bool', [1, 0, 1])
+    before = arr.data.bin
+    if route == 'array_init':
+        r = attempt(bs.Array, 'bool', seq)
+        want = expbits
+    elif route == 'array_init_tuple':
+        r = attempt(bs.Array, 'bool', tuple(seq))
+        want = expbits
+    elif route == 'array_init_iter':
+        r = attempt(bs.Array, 'bool', iter(seq))
+        want = expbits
+    elif route == 'array_extend':
+        r = attempt(arr.extend, seq)
+        want = before + expbits
+    elif route == 'array_extend_iter':
+        r = attempt(arr.extend, (x for x in seq))
+        want = before + expbits
+    elif route == 'array_append':
+        r = attempt(arr.append, v)
+        want = before + ('1' if v else '0')
+    elif route == 'array_insert':
+        r = attempt(arr.insert, pos, v)
+        want = before[:pos] + ('1' if v else '0') + before[pos:]
+    elif route == 'array_setitem':
+        r = attempt(arr.__setitem__, pos, v)
+        want = before[:pos] + ('1' if v else '0') + before[pos + 1:]
+    elif route == 'array_slice':
+        r = attempt(arr.__setitem__, slice(0, 2), seq)
+        want = expbits + before[2:]
+    else:
+        r = attempt(arr.__setitem__, slice(0, 3, 2), [1, v])
+        want = '1' + before[1] + ('1' if v else '0')
+    if fits:
+        require(not is_raised(r), 'bool items 0/1 must be accepted', got=r, route=route)
+        got = r.data.bin if route.startswith('array_init') else arr.data.bin
+        require(got == want, 'bool items were not stored as their single bits', got=got, expected=want, route=route)
+    else:
+        require(is_raised(r, ValueError), 'an integer other than 0/1 does not fit a bool item and must be rejected', got=r if is_raised(r) else r, v=v, route=route, seq=seq)
+        if not route.startswith('array_init') and not route.startswith('array_extend'):
+            require(arr.data.bin == before, 'a rejected bool item changed the Array', got=arr.data.bin, expected=before, route=route)
+    return {'nt': not fits, 'labels': [route]}
+
+
 def enum_limits(tier):
     """complete grid: every integer dtype x every width 1..130 (whole bytes to 136 for the endian forms) x the eight values around the two limits;
     the route rotates with the cell in quick and is every route in thorough"""
@@ -421,6 +506,9 @@ def enum_limits(tier):
 CLASSES4 = ['Bits', 'BitArray', 'ConstBitStream', 'BitStream']
 
 SUBCHECKS = [
+    Sub('C15.bool_values', run_bool, enum=enum_bool,
+        enum_exhaustive_note='11 integers (0, 1, True, False and 7 that do not fit one bit) x 16 routes (constructor keyword, token, pack x2, Dtype.build, property assignment, Array init from list / tuple / '
+                             'iterator, extend from list / generator, append, insert, item, slice and extended slice assignment) x 3 positions among good values'),
     Sub('C15.limits_grid', run_int, enum=enum_limits,
         enum_exhaustive_note='every integer dtype name x every width 1..130 (uint/int) or every whole-byte width 8..136 (endian forms) x {lo-2..lo+1, hi-1..hi+2}; one rotating route per cell (quick) / all 17 routes (thorough)'),
     Sub('C15.int_ranges', run_int, strategy=int_case, examples={'quick': 20000, 'thorough': 300000}, ambient=('bytealigned',)),
